@@ -224,6 +224,10 @@ class CellSim(object):
 
     def op_rmsrv(self, idx):
         server = self._server(idx)
+        servers = self.servers()
+        loaded = sorted(n for n, srv in servers.items() if srv.apps)
+        if loaded and idx % 4:
+            server = servers[loaded[idx % len(loaded)]]
         if server is None:
             return
         # Loader.remove_server
@@ -292,6 +296,15 @@ class CellSim(object):
 
     def op_bl(self, idx, flag):
         app = self._app(idx)
+        # aim: instances that hold an identity (and, first of all, those that
+        # lost their server outside a cycle) are the interesting targets
+        holders = [n for n in self.app_order
+                   if self.cell.apps[n].identity is not None]
+        orphans = [n for n in holders if self.cell.apps[n].server is None]
+        if orphans and idx % 2:
+            app = self.cell.apps[orphans[idx % len(orphans)]]
+        elif holders and idx % 3:
+            app = self.cell.apps[holders[idx % len(holders)]]
         if app is not None:
             app.blacklisted = bool(flag)
 
